@@ -42,18 +42,18 @@ Flat(ss) == IF ss = <<>> THEN <<>> ELSE Head(ss) \o Flat(Tail(ss))
 (* S = the accepted values the owner has neither popped nor stolen itself and does not   *)
 (* KNOW to be stolen, oldest first.  Only the owner adds elements and only at the bottom; *)
 (* everybody else removes the OLDEST element (OrderOK).  Hence at every instant the       *)
-(* content of the deque is a SUFFIX of S [SUF].                                             *)
+(* content of the deque is a SUFFIX of S [SUF].                                           *)
 (*  push accepted : the value becomes the newest element.                                 *)
 (*  push rejected : the owner read its own bottom b, then top t, and b - t >= cap: at the  *)
 (*                  instant of the top load the deque held b - t elements (only the owner *)
-(*                  moves bottom), = cap by Bounded.  So |S| >= cap, and by [SUF] the        *)
+(*                  moves bottom), = cap by Bounded.  So |S| >= cap, and by [SUF] the      *)
 (*                  content is the newest cap elements of S (OwnerExact: fails iff full).  *)
-(*  pop succeeds  : returns the newest element of the deque (OrderOK), which by [SUF] is    *)
+(*  pop succeeds  : returns the newest element of the deque (OrderOK), which by [SUF] is  *)
 (*                  the newest element of S.                                              *)
 (*  pop fails     : top > b, or the last-element CAS lost: the deque was empty at that    *)
 (*                  instant (OwnerExact), everything in S has been stolen.                *)
-(*  own steal v   : v was the oldest element of the deque at the CAS; by [SUF] v is in S and *)
-(*                  everything older in S has been stolen.  A failed steal (empty OR lost *)
+(*  own steal v   : v was the oldest element of the deque at the CAS; by [SUF] v is in S  *)
+(*                  and everything older in S was stolen.  A failed steal (empty OR lost  *)
 (*                  CAS, not distinguished by the API) tells nothing.                     *)
 (*  size() = k    : b (exact) - t (at its load) = k elements at that instant, k <= cap     *)
 (*                  (ObserversInRange): k <= |S| and the content is the newest k of S.    *)
